@@ -59,7 +59,7 @@ func c11Build(r *rand.Rand, dir string) *c11Env {
 		ids[i] = fmt.Sprintf("n%d", i)
 	}
 	mk := func(r *rand.Rand, id string) *sbom.Node { return gen.Node(r, id, o) }
-	nl := gen.RandomNodeList(r, gen.GraphOpts{Universe: ids, EdgeTypes: []sbom.Edge_Type{sbom.Edge_contains, sbom.Edge_dependsOn, sbom.Edge_other}, PNode: 1, PEdge: 0.3, PRoot: 0, NodeMaker: mk})
+	nl := gen.RandomNodeList(r, gen.GraphOpts{Universe: ids, EdgeTypes: []sbom.Edge_Type{sbom.Edge_contains, sbom.Edge_dependsOn, sbom.Edge_other}, PNode: 1, PEdge: 0.3, PRoot: 0, NodeMaker: mk, SplitEdges: r.Intn(3) == 0})
 	// unsorted multi-element targets and several roots in non-sorted order: in-place sorting becomes observable
 	nl.RootElements = []string{ids[0]}
 	idx := map[string]int{}
@@ -100,7 +100,8 @@ func c11Build(r *rand.Rand, dir string) *c11Env {
 			dt.Type = &ty
 		}
 	}
-	nl2 := gen.RandomNodeList(r, gen.GraphOpts{Universe: append(append([]string{}, ids[:n/2]...), "x1", "x2"), EdgeTypes: []sbom.Edge_Type{sbom.Edge_contains}, PNode: 0.8, PEdge: 0.3, PRoot: 0.5, NodeMaker: mk})
+	// the second list is well-formed but often NOT normalised: several stored edges with the same source and type
+	nl2 := gen.RandomNodeList(r, gen.GraphOpts{Universe: append(append([]string{}, ids[:n/2]...), "x1", "x2"), EdgeTypes: []sbom.Edge_Type{sbom.Edge_contains}, PNode: 0.8, PEdge: 0.4, PRoot: 0.5, NodeMaker: mk, SplitEdges: r.Intn(2) == 0})
 	// several roots in descending order
 	sort.Sort(sort.Reverse(sort.StringSlice(nl2.RootElements)))
 	// at least two roots, stored in descending order, so that in-place sorting is observable
